@@ -194,6 +194,7 @@ class Sim:
         # that command only when the frame before it on the wire was EnableDeviceType of that type
         self.bus_prev = None
         self.bus_enabled = True
+        self.bus_repeat = False
         self.bare_dt_frames = []   # (tid, bits, value) of device-type frames that reached the bus without their prefix
         self.truncated = None      # (virtual time, report kind, bytes delivered) of the "silent mid-frame" fault
 
@@ -217,13 +218,16 @@ class Sim:
         ent = self.frames.get((bits, value))
         dt = ent[2].devicetype if ent is not None else 0
         if dt:
-            # (the second copy of a send-twice frame the hasseb driver writes itself belongs to the same command)
-            self.bus_enabled = (self.bus_prev == (16, 0xC100 | dt)
-                                or (self.bus_prev == (bits, value) and self.bus_enabled))
-            if not self.bus_enabled:
+            if self.bus_prev == (16, 0xC100 | dt):
+                self.bus_enabled, self.bus_repeat = True, bool(ent[2].sendtwice)
+            elif self.bus_prev == (bits, value) and self.bus_enabled and self.bus_repeat:
+                # the second copy of a send-twice frame (the hasseb driver writes it itself) belongs to the same command
+                self.bus_repeat = False
+            else:
+                self.bus_enabled = self.bus_repeat = False
                 self.bare_dt_frames.append((who, bits, value))
         else:
-            self.bus_enabled = True
+            self.bus_enabled, self.bus_repeat = True, False
         self.bus_prev = (bits, value)
 
     def device_vanished(self, fd):
@@ -564,6 +568,7 @@ class Sim:
             self.apply(ch[i])
             self.steps += 1
         self.end_state = self.observe()
+        self.unfinished = [c.tid for c in self.callers if c.started and not c.done]
         self.stopped = True        # what the tear-down cancels is not part of the trace
 
     async def _follow_up(self, n):
